@@ -262,7 +262,8 @@ func (rn *runner) runHistory(idx int, worker int, v cfgVariant, replay []step) {
 			s.HTTP.Post(s.URL()+"/debug/ctrl?mod=compen&switchon=false&allshards=true", "", nil)
 			s.HTTP.Post(s.URL()+"/debug/ctrl?mod=merge&switchon=false&allshards=true", "", nil)
 			// after a restart the first answers may be partial until partitions are online
-			kit.StableDump(s, db, u.Msts, m.Schema, kit.Expect(m, u.Msts, kit.DumpOpts{}), 20*time.Second)
+			want := kit.Expect(m, u.Msts, kit.DumpOpts{})
+			kit.StableDump(s, db, u.Msts, m.Schema, func(cur model.Contents) bool { return len(model.Diff(want, cur, "", 1)) == 0 }, 20*time.Second)
 		}
 		if !s.Alive() {
 			c.Violation("server-died:"+firstLines(s.StdoutTail(1<<20)), fmt.Sprintf("history %d (%s) step %d (%s): server process exited: %s", idx, v.Name, i, st.Op, firstLines(s.StdoutTail(1<<20))),
